@@ -172,6 +172,15 @@ def check(case, ctx):
     got0b = must_return("pad (grid-level settings only, after a call with per-call arguments)", do_pad, None, None)
     compare(got0b, dims, exp0, comparable0, "pad with grid-level settings only, issued after a call with per-call arguments")
 
+    # the very same input object updated in place between two calls: the halo follows the new values
+    newvals = (3 - 2 * np.asarray(case["values"], dtype=np.float64)).tolist()
+    keep = da.values.copy()
+    da.values[...] = np.asarray(newvals)
+    exp_u, comparable_u = model_pad(newvals, dims, case, by_name, rules, fills)
+    got_u = must_return("pad (input updated in place)", do_pad, case["call_boundary"], case["call_fill"])
+    compare(got_u, dims, exp_u, comparable_u, "pad after the input object was updated in place")
+    da.values[...] = keep
+
     # (3) re-spellings of the same choice
     total_b = {n: rules[n] for n in names}
     total_f = {n: fills[n] for n in names}
